@@ -53,7 +53,7 @@ def main(argument_lst: Optional[List[str]] = None):
             # Execute function
             try:
                 output = call_funct(input_dict=input_dict, funct=None, memory=memory)
-            except Exception as error:
+            except BaseException as error:
                 interface_send(
                     socket=socket,
                     result_dict={"error": error, "error_type": str(type(error))},
